@@ -110,6 +110,28 @@ func TestC11_Moments(t *testing.T) {
 		if moment != "before-ready" {
 			w.checkQuiet()
 		}
+		// optionally: some consumers stop reading and their buffers overflow before the close
+		var stalled []*node
+		if moment != "before-ready" && moment != "during-relist" && rapid.IntRange(0, 2).Draw(t, "stallSome") == 0 {
+			for _, n := range w.nodes {
+				if n.kind == "sub" && rapid.Bool().Draw(t, "stall") {
+					w.stallNode(n)
+					n.lossy = true
+					stalled = append(stalled, n)
+				}
+			}
+			if len(stalled) > 0 {
+				nev := rapid.IntRange(kcache.EventBufsiz, kcache.EventBufsiz+40).Draw(t, "overflow")
+				for i := 0; i < nev; i++ {
+					kk := treeKeys[i%len(treeKeys)]
+					w.put(kk[0], kk[1], map[string]string{"x": fmt.Sprint(1 + i%2)})
+					if i%20 == 19 {
+						w.barrier() // healthy nodes keep up; stalled ones are not waited for
+					}
+				}
+				w.checkQuiet()
+			}
+		}
 		// target and mechanism
 		target := rapid.SampledFrom(w.nodes).Draw(t, "target")
 		mech := "close"
@@ -230,8 +252,15 @@ func TestC11_Moments(t *testing.T) {
 		if target.kind == "root" {
 			// everything closes; the error is reported
 			w.waitFor(w.root.Done(), fmt.Sprintf("root Done() after %s", mech))
+			// the cascade must not depend on consumers that stopped reading: Done() everywhere first ...
 			for _, n := range w.nodes {
-				w.waitFor(n.doneCh(), fmt.Sprintf("Done() of %s after the root was closed by %s", n.path(), mech))
+				w.waitFor(n.doneCh(), fmt.Sprintf("Done() of %s after the root was closed by %s (%d consumers stalled with overflowed buffers)", n.path(), mech, len(stalled)))
+			}
+			// ... only then do the stalled consumers resume, to see their channels closed
+			for _, n := range stalled {
+				w.unstallNode(n)
+			}
+			for _, n := range w.nodes {
 				if n.kind != "mon" {
 					w.waitFor(n.eof, fmt.Sprintf("Events() of %s closed after the root was closed by %s", n.path(), mech))
 				}
@@ -283,6 +312,6 @@ func TestC11_Moments(t *testing.T) {
 		}
 		statCase("C11", hashString(strings.Join(hist, ";")), internal && (liveSibling || target.kind == "root"), func() interface{} {
 			return map[string]interface{}{"mode": "moments", "moment": moment, "mechanism": mech, "target": target.kind, "history": hist}
-		}, "moment_"+moment, "mech_"+mech, "target_"+target.kind)
+		}, "moment_"+moment, "mech_"+mech, "target_"+target.kind, fmt.Sprintf("stalled_consumers=%v", len(stalled) > 0))
 	})
 }
